@@ -54,14 +54,6 @@ func putReaderBuffer(b *bytes.Buffer) {
 	}
 }
 
-func readerBufferSlice(buf *bytes.Buffer, l int) []byte {
-	b := buf.Bytes()
-	if l <= MessageBufferLength && cap(b) >= MessageBufferLength {
-		return b[:l]
-	}
-	return make([]byte, l)
-}
-
 // ReadMessage reads a binary stream from the reader and uses the given
 // dictionary to parse it.
 func ReadMessage(reader io.Reader, dictionary *dict.Parser) (*Message, error) {
@@ -118,7 +110,9 @@ func (m *Message) readHeader(r io.Reader, buf *bytes.Buffer) (cmd *dict.Command,
 func (m *Message) readBody(r io.Reader, buf *bytes.Buffer, cmd *dict.Command, stream uint) error {
 	var err error
 	var n int
-	b := readerBufferSlice(buf, int(m.Header.MessageLength-HeaderLength))
+	// Decoded values (Address, IPv4, IPv6, Unknown, ...) keep referencing the
+	// body, so it must not live in the pooled, reused read buffer.
+	b := make([]byte, int(m.Header.MessageLength-HeaderLength))
 	msr, isMulti := r.(MultistreamReader)
 	if isMulti {
 		n, _, err = msr.ReadAtLeast(b, len(b), stream)
